@@ -906,6 +906,9 @@ pub fn gen_model(rng: &mut Rng, cfg: &GenCfg) -> Model {
 /// sharing variables, often trivially infeasible) these keep several profiles alive at once, which is
 /// what the incremental time-table maintenance is about.
 pub fn gen_model_sched(r: &mut Rng, cfg: &GenCfg) -> Model {
+    if r.chance(1, 2) {
+        return gen_model_sched_long(r, cfg);
+    }
     let mut m = Model::default();
     let mut n = 4 + r.usize(3);
     let horizon = r.i32(3, 6);
@@ -937,6 +940,40 @@ pub fn gen_model_sched(r: &mut Rng, cfg: &GenCfg) -> Model {
             }
         }
     }
+    m
+}
+
+/// Long profiles with tasks around them: one to three "profile" tasks with a long duration and a
+/// narrow start window (their compulsory parts span three or more time points once they are fixed,
+/// often already at the root) and one or two short tasks whose wide start domains reach from before
+/// the profile to after it, so that start times in the middle of their domains are removed as holes
+/// and bounds jump over the profile. Half of the time holes in the domain are allowed.
+pub fn gen_model_sched_long(r: &mut Rng, _cfg: &GenCfg) -> Model {
+    let mut m = Model::default();
+    let n_profile = 1 + r.usize(3);
+    let n_wide = if n_profile == 3 { 1 } else { 1 + r.usize(2) };
+    let cap = r.i32(2, 4);
+    let mut tasks = vec![];
+    for _ in 0..n_profile {
+        let release = r.i32(2, 5);
+        let width = r.i32(0, 2);
+        let i = m.vars.len();
+        m.vars.push(VarDecl { kind: VarKind::Interval, values: (release..=release + width).collect() });
+        tasks.push((View { scale: 1, offset: 0, var: i }, r.i32(3, 6), r.i32(1, 3.min(cap))));
+    }
+    for _ in 0..n_wide {
+        let release = r.i32(0, 2);
+        let width = r.i32(5, 9);
+        let i = m.vars.len();
+        m.vars.push(VarDecl { kind: VarKind::Interval, values: (release..=release + width).collect() });
+        tasks.push((View { scale: 1, offset: 0, var: i }, r.i32(2, 3), r.i32(1, 3.min(cap))));
+    }
+    r.shuffle(&mut tasks);
+    let mut opt = CumOpt::from_index(r.usize(144));
+    if r.chance(1, 2) {
+        opt.holes = true;
+    }
+    m.cons.push(Cons::Cumulative(tasks, cap, opt));
     m
 }
 
